@@ -73,7 +73,7 @@ def generate(ctx):
                "T": rng.randint(6, 10), "hypers": [base, other], "topology": ["fan_in", "fan_out", "two_layers"][(i // len(FAMILY)) % 3],
                "freeze_at": rng.choice([3, 5, 10 ** 9]), "reduction": "sum", "reward": rng.choice(["scalar+", "scalar-", "tensor"]),
                "scale": rng.choice([1.0, 0.25, 2.0, -0.5, -1.5]), "p": rng.choice([0.4, 0.7]), "seed": rng.randrange(1 << 30),
-               "partial_calls": rng.random() < 0.6}
+               "partial_calls": rng.random() < 0.6, "apply_via": rng.choice(["connection", "trainer"])}
     for sg in range(4):
         for k in (0, 1, 2):
             yield {"part": "tie", "signs": sg, "k": k, "trainer": ["DelayAdjustedSTDP", "DelayAdjustedKernelSTDP", "KernelSTDP"][k % 3]}
